@@ -15,7 +15,8 @@ type MethodScope struct {
 
 	vars       []*Var
 	conflicted map[string]bool
-	reserved   []string
+	reserved   []*Var
+	typeParams bool
 }
 
 // AddVar allocates a variable instance and adds it to the method scope.
@@ -192,8 +193,8 @@ func (m *MethodScope) resolveShadowing() {
 	for _, name := range bodyIdents {
 		needed[name] = true
 	}
-	for _, name := range m.reserved {
-		needed[name] = true
+	for _, v := range m.reserved {
+		needed[v.Name] = true
 	}
 	for _, v := range m.vars {
 		for _, imprt := range v.imports {
@@ -211,6 +212,28 @@ func (m *MethodScope) resolveShadowing() {
 		name := v.Name + "MoqParam"
 		for n := 1; ; n++ {
 			if _, used := m.searchVar(name); !used && !needed[name] {
+				break
+			}
+			name = v.Name + "MoqParam" + strconv.Itoa(n)
+		}
+		v.Name = name
+	}
+}
+
+// resolveTypeParamShadowing renames the type parameters whose name was
+// generated (blank type parameters) if it is used as package qualifier.
+// Type parameters named in the source can not be renamed, the signatures
+// refer to them.
+func (m *MethodScope) resolveTypeParamShadowing() {
+	for _, v := range m.vars {
+		if n := v.vr.Name(); n != "" && n != "_" {
+			continue
+		}
+		name := v.Name
+		for n := 1; ; n++ {
+			_, isImport := m.registry.searchImport(name)
+			other, used := m.searchVar(name)
+			if !isImport && (!used || other == v) {
 				break
 			}
 			name = v.Name + "MoqParam" + strconv.Itoa(n)
